@@ -25,8 +25,22 @@ def gen_spec(rng, variant, tier):
     n_exo = rng.choice([0, 1, 1, 2])
     if n_endo == 0:
         n_exo = max(1, n_exo)
+    if deep and variant in ('solver', 'solver_faults') and rng.random() < 0.004:
+        n_endo = rng.choice([24, 40])  # dozens of variables
     endo = [f'Y{i}' for i in range(n_endo)]
     exo = [f'X{i}' for i in range(n_exo)]
+    style = rng.choice([None] * 8 + ['reversed', 'prefix', 'long', 'unicode'])
+    if style == 'reversed':
+        # declaration order is not sorted order
+        endo, exo = [f'Y{n_endo - 1 - i}' for i in range(n_endo)], [f'X{n_exo - 1 - i}' for i in range(n_exo)]
+    elif style == 'prefix' and n_endo <= 5:
+        # names that are prefixes of one another
+        endo, exo = ['Y' * (i + 1) for i in range(n_endo)], ['X' * (i + 1) for i in range(n_exo)]
+    elif style == 'long':
+        # names far longer than any fixed width
+        endo, exo = [f'Y{i}_' + 'long_name_' * 5 for i in range(n_endo)], [f'X{i}_' + 'long_name_' * 5 for i in range(n_exo)]
+    elif style == 'unicode':
+        endo, exo = [f'\u0178{i}' for i in range(n_endo)], [f'\u0394x{i}' for i in range(n_exo)]
     r = rng.random()
     if n_endo == 0:
         check = [] if (r < 0.7 or not exo) else [exo[0]]
@@ -43,7 +57,11 @@ def gen_spec(rng, variant, tier):
     lags = rng.choice([0, 0, 0, 1, 2])
     leads = rng.choice([0, 0, 0, 1, 2])
     n = lags + leads + rng.randint(1, 8 if deep else 6)
+    if variant in ('solver', 'solver_faults') and rng.random() < (0.004 if deep else 0.001):
+        n = rng.choice([300, 1200])  # a long span
     sp = {'type': rng.choice(spans.TYPES), 'n': n, 'origin': rng.choice([0, 1, 3, 7])}
+    if sp['type'] in spans.ORDERABLE and rng.random() < 0.25:
+        sp['order'] = rng.choice(['desc', 'shuffle'])  # labels that are not in sorted order
     init = {nm: [rng.choice(DYADS) for _ in range(n)] for nm in endo + exo}
     spec = {'kind': 'scripted', 'endo': endo, 'exo': exo, 'check': check, 'lags': lags, 'leads': leads, 'span': sp, 'init': init}
     if rng.random() < 0.15:
@@ -56,6 +74,10 @@ def gen_spec(rng, variant, tier):
 
 def gen_opts(rng, faults, deep=False):
     max_iter = rng.choice([0, 1, 1, 2, 2, 3, 3, 4, 5, 6] + ([8, 10, 12] if deep else []))
+    if rng.random() < 0.004:
+        max_iter = rng.choice([127, 128, 129, 255, 256, 257, 300])  # past what a one-byte counter holds
+    elif rng.random() < (0.0006 if deep else 0.0002):
+        max_iter = rng.choice([32767, 32768, 40000])  # past what a two-byte counter holds
     r = rng.random()
     if r < 0.05:
         min_iter = max_iter + 1
@@ -103,6 +125,12 @@ def gen_deltas(rng, tol, n_endo, kind):
 def gen_plan(rng, opts, spec, faults, idx):
     n_endo = len(spec['endo'])
     max_iter = opts['max_iter']
+    if max_iter > 100:
+        # a long run of moving passes, converging on the last permitted pass, never, or somewhere in the middle
+        tl = abs(opts['tol']) if opts['tol'] else 2.0**-10
+        stop = rng.choice([max_iter, max_iter + 1, max_iter - 1, max(1, max_iter // 2), 130])
+        plan = {'passes': [], 'default': {'a': 'delta', 'd': [0.0] * n_endo}, 'moving_until': stop, 'moving': {'a': 'delta', 'd': [2 * tl] * n_endo}}
+        return plan, []
     L = max_iter + 1
     # number of moving passes before the first converging one
     m = rng.choice([0, 0, 1, 1, 2, max(0, opts['min_iter'] - 1), opts['min_iter'], max(0, max_iter - 1), max_iter, max_iter + 1])
